@@ -473,9 +473,19 @@ def build_call(flavour, spec):
     return f
 
 
-def build_statement(flavour, spec, options=None):
+def build_statement(flavour, spec, options=None, derive=None):
+    """derive: further options; the statement's engine is then a copy of
+    the one created with `options`, made with engine.copy(derive) - the
+    options it does not restate stay in force."""
     from yaql.language import expressions as X
     engine = chain_engine(flavour, options)
+    if derive:
+        key = ('derived', flavour, core.jdump(options or {}),
+               core.jdump(derive))
+        e2 = _cache.get(key)
+        if e2 is None:
+            e2 = _cache[key] = engine.copy(dict(derive))
+        engine = e2
     return X.Statement(build_arg(flavour, spec) if isinstance(spec, list)
                        else build_call(flavour, spec), engine)
 
